@@ -172,10 +172,17 @@ func c11Child(raw json.RawMessage) any {
 	var nmu sync.Mutex
 	notify := func(bi int, n c11Notif) {
 		lo, hi := c16Range(c11NumVb, n.Total, n.Num)
+		// recording the notification and publishing its membership value are one atomic step, so that the
+		// order of the records is the order in which the values became "the latest membership information"
 		nmu.Lock()
 		res.Notifs = append(res.Notifs, c11NotifRec{At: tick(), AtNs: time.Now().UnixNano(), Burst: bi, Lo: lo, Hi: hi, State: n.State})
+		if sc.Mode != "bus" {
+			announce(n.Total, n.Num)
+		}
 		nmu.Unlock()
-		announce(n.Total, n.Num) // bus mode: this is the notification itself (membership value + trigger)
+		if sc.Mode == "bus" {
+			announce(n.Total, n.Num) // bus mode: the publication is the notification itself (value + trigger)
+		}
 		rebalance()
 	}
 	feedClosed := func(obsBefore map[uint16]couchbase.Observer) {
@@ -288,7 +295,9 @@ func c11Child(raw json.RawMessage) any {
 					if closeGate != nil {
 						wg.Add(1)
 						go func() { defer wg.Done(); notify(bi, ff) }()
-						time.Sleep(time.Millisecond)
+						// the close keeps running for a while after the trigger (a real close takes network round
+						// trips): the timer the trigger re-arms must expire clearly before the cycle's own timer
+						time.Sleep(70 * time.Millisecond)
 						last = time.Now()
 						continue
 					}
@@ -642,7 +651,7 @@ func TestC11_Rebalance(t *testing.T) {
 	out := make([]string, len(scs))
 	disc := make([]bool, len(scs))
 	var wg sync.WaitGroup
-	sem := make(chan struct{}, 12)
+	sem := make(chan struct{}, 5)
 	for i := range scs {
 		wg.Add(1)
 		go func(i int) {
@@ -692,12 +701,16 @@ func TestC11_Stress(t *testing.T) {
 	if d := c11ExecStress(sc2); d != "" {
 		violation(t, "C11", "c11stress", sc2, "%s", d)
 	}
-	recordEnum("C11", int64(sc.Rebalances+sc2.Rebalances), 2, map[string]int64{"stress_rebalances": int64(sc.Rebalances + sc2.Rebalances)})
+	sc3 := c11DynStress{Rounds: scale(5000, 60000), Spinners: 8}
+	if d := c11ExecDynStress(sc3); d != "" {
+		violation(t, "C11", "c11dynstress", sc3, "%s", d)
+	}
+	recordEnum("C11", int64(sc.Rebalances+sc2.Rebalances+sc3.Rounds), 3, map[string]int64{"stress_rebalances": int64(sc.Rebalances + sc2.Rebalances), "stress_dynamic_announcements": int64(sc3.Rounds)})
 }
 
 // repaired defects: their replays must hold now (a regression is reported like any other violation)
 func TestC11_Fixed(t *testing.T) {
-	for _, f := range []string{"findings/C11_first_rebalance_concurrent_trigger.json"} {
+	for _, f := range []string{"findings/C11_first_rebalance_concurrent_trigger.json", "findings/C11_dynamic_membership_stale_info.json"} {
 		if d := runReplayFile(verifRoot() + "/" + f); d != "" {
 			var rf replayFile
 			b, _ := os.ReadFile(verifRoot() + "/" + f)
@@ -710,6 +723,13 @@ func TestC11_Fixed(t *testing.T) {
 
 func init() {
 	registerChild("c11", c11Child)
+	registerReplay("c11dynstress", func(raw json.RawMessage) string {
+		var sc c11DynStress
+		if err := json.Unmarshal(raw, &sc); err != nil {
+			return err.Error()
+		}
+		return c11ExecDynStress(sc)
+	})
 	registerReplay("c11", func(raw json.RawMessage) string {
 		var sc c11Scenario
 		if err := json.Unmarshal(raw, &sc); err != nil {
